@@ -16,8 +16,10 @@ not generated).
 import itertools
 
 NAME = "fivecells"
-STATUS = "model+differential"
-THEOREMS = []
+STATUS = "theorem"
+THEOREMS = ["Cspuz.C11.Fivecells.program_iff_rules", "Cspuz.C11.Fivecells.total",
+            "Cspuz.C11.Fivecells.invalid_sound"]
+LEAN_FILE = "C11_Fivecells"
 LEAN_CMD = "puz_fivecells"
 
 _SHAPES = [(1, 5), (5, 1), (2, 5), (5, 2), (2, 3), (3, 2), (3, 3), (3, 4), (4, 3), (2, 6), (6, 2), (1, 4), (1, 6), (4, 1), (2, 2), (1, 1), (1, 10),
